@@ -91,15 +91,15 @@ func init() {
 	// ------------------------------------------------------------------ C02
 	register(&Spec{Prop: "C02",
 		Gen: func(t *rapid.T, th bool) *Case {
-			pf := &Profile{Kinds: allKinds, QKinds: memQKinds, MaxQueues: 2, Concs: []int{1, 2, 3, 4, 2, 3}, Expiry: []int{0, 0, 0, 1000},
+			pf := &Profile{Kinds: allKinds, QKinds: memQKinds, MaxQueues: 2, Concs: []int{1, 2, 3, 4, 2, 3, 0}, Expiry: []int{0, 0, 0, 1000},
 				MinClients: 1, MaxClients: 2, MaxOps: scale(th, 8, 14),
 				// Pause/Resume also come from ordinary clients, concurrently with the controller's calls
-				Ops:     map[string]int{"add": 30, "addmany": 12, "settle": 6, "release": 8, "sleep": 3, "yield": 3, "resume": 4, "pause": 1},
+				Ops:     map[string]int{"add": 30, "addmany": 12, "settle": 6, "release": 8, "sleep": 3, "yield": 3, "resume": 4, "pause": 1, "nconc": 3},
 				Ctrl:    map[string]int{"pause": 2, "pausewait": 2, "resume": 4, "restart": 4, "tune": 10, "bind": 3, "settle": 6, "stop": 1},
 				MaxCtrl: scale(th, 5, 10), GatedProb: 80, MaxBatch: 5}
 			return genProgram(t, "C02", pf, th)
 		},
-		Oracles: []oracleFn{oC02, oC02Tune},
+		Oracles: []oracleFn{oC02, oC02Tune, oC02Limit},
 		Foreign: []oracleFn{oCrash("*"), oDeadlock("C03"), oLivelock("C03")},
 		NonTrivial: func(ix *Index) (bool, []string) {
 			cl := classesOf(ix)
@@ -179,9 +179,10 @@ func init() {
 				MaxCtrl: 3, GatedProb: 40, Outs: []int{OutVal, OutErr, OutPanicStr}, MaxBatch: 4}
 			c := genProgram(t, "C05", pf, th)
 			addCloseScenario(t, c, 5)
+			addBigFailingBatch(t, c, 8)
 			return c
 		},
-		Oracles: []oracleFn{oC05},
+		Oracles: []oracleFn{oC05, completionBlocked("C05")},
 		Foreign: []oracleFn{oCrash("*"), oDeadlock("C03"), oLivelock("C03")},
 		NonTrivial: func(ix *Index) (bool, []string) {
 			cl := classesOf(ix)
@@ -311,9 +312,10 @@ func init() {
 			}
 			c := genProgram(t, "C08", pf, th)
 			addCloseScenario(t, c, 5)
+			addBigFailingBatch(t, c, 8)
 			return c
 		},
-		Oracles: []oracleFn{oC08, oC08StuckWait},
+		Oracles: []oracleFn{oC08, oC08StuckWait, completionBlocked("C08")},
 		Foreign: []oracleFn{oDeadlock("C03"), oLivelock("C03")},
 		NonTrivial: func(ix *Index) (bool, []string) {
 			cl := classesOf(ix)
@@ -445,6 +447,30 @@ func dedupS(xs []string) []string {
 		}
 	}
 	return out
+}
+
+// addBigFailingBatch appends (with probability 1/oneIn, error and result workers) a batch of 18-40 items
+// that all fail, waited for before anybody reads its stream: every item must still finish.
+func addBigFailingBatch(t *rapid.T, c *Case, oneIn int) {
+	if c.Cfg.Kind == "plain" || len(c.Clients) < 2 || rapid.IntRange(0, oneIn-1).Draw(t, "bigfailbatch") != 0 {
+		return
+	}
+	q := 0
+	for i, k := range c.Cfg.Queues {
+		if isMemKind(k) {
+			q = i
+		}
+	}
+	if !isMemKind(c.Cfg.Queues[q]) {
+		return
+	}
+	n := rapid.IntRange(18, 40).Draw(t, "bigfailn")
+	var items []Item
+	for i := 0; i < n; i++ {
+		items = append(items, Item{N: 7000 + i, ID: "f" + itoa(7000+i), Out: pick(t, "failkind", []int{OutErr, OutErr, OutPanicStr})})
+	}
+	ci := rapid.IntRange(1, len(c.Clients)-1).Draw(t, "bigfailclient")
+	c.Clients[ci] = append(c.Clients[ci], Op{Op: "addall", Q: q, G: 950, Items: items}, Op{Op: "gwait", G: 950}, Op{Op: "gpending", G: 950}, Op{Op: "gconsume", G: 950})
 }
 
 // addCloseScenario inserts (with probability 1/oneIn) a queue-close scenario into one client:
